@@ -492,6 +492,15 @@ def main_check(check: Check, tier: str, seed: int, replay: str | None, as_json: 
         path.write_text(json.dumps(small, indent=1, default=_jsonable))
         code, last, txt = run_in_fresh_interpreter(pid, path)
         if last is None or s not in last["sigs"]:
+            # the minimised scenario may only fail thanks to process-level state left behind by the candidates tried
+            # before it (e.g. a class-level cache in the code under test): fall back to the scenario as it was found
+            orig = json.loads(json.dumps(scn, default=_jsonable))
+            orig["expect"] = {"violation": s, "detail": info["v"]["detail"], "minimised": False, "found_in_run": info["first_run"],
+                              "runs_with_this_signature": info["count"],
+                              "note": "the minimised scenario did not reproduce in a fresh interpreter; this is the scenario as found"}
+            path.write_text(json.dumps(orig, indent=1, default=_jsonable))
+            code, last, txt = run_in_fresh_interpreter(pid, path)
+        if last is None or s not in last["sigs"]:
             agg["harness"].append((info["first_run"], f"violation {s} did not reproduce from {path} in a fresh interpreter: {txt[-1500:]}"))
             continue
         lines.append(f"  {s}: {info['v']['detail'][:300]}")
